@@ -21,6 +21,9 @@ if REPO != "/repo":
     sys.path.insert(0, REPO)
 sys.setrecursionlimit(1000)   # the default; C20 relies on it
 
+import warnings  # noqa: E402
+warnings.simplefilter("ignore")      # pySMT deprecation / division-by-zero warnings are not findings
+
 from mc.core import runner  # noqa: E402
 
 
